@@ -2,6 +2,7 @@ package main
 
 import (
 	"fmt"
+	"strings"
 	"go/token"
 	"go/types"
 	"sort"
@@ -1698,4 +1699,76 @@ func checkIndexAtNode(p *Program, r *Report, rule string) {
 		}
 	}
 	r.Floor(rule, "leaf-index position writes in the map forest", n, 6)
+}
+
+// ---------------------------------------------------------------------------
+// INDEX-UPDATE-NOT-COUNTER-GATED (R10g): inside a loop that moves a node upward
+// step by step, the leaf index has to follow the node on every step. An index
+// update that is conditioned on a comparison of the loop's own counter (for
+// example "only in the first iteration") leaves the index behind when the
+// node moves more than once.
+
+func inductionVar(v ssa.Value) *ssa.Phi {
+	v = stripConvert(v)
+	phi, ok := v.(*ssa.Phi)
+	if !ok || len(latches(phi.Block())) == 0 {
+		return nil
+	}
+	for _, e := range phi.Edges {
+		if bo, ok := e.(*ssa.BinOp); ok && (bo.Op == token.ADD || bo.Op == token.SUB) {
+			if stripConvert(bo.X) == ssa.Value(phi) {
+				if _, isConst := bo.Y.(*ssa.Const); isConst {
+					return phi
+				}
+			}
+		}
+	}
+	return nil
+}
+
+func checkIndexNotCounterGated(p *Program, r *Report, rule string) {
+	n := 0
+	for _, fn := range p.Funcs {
+		recv := fn.Signature.Recv()
+		if fn.Parent() != nil || recv == nil || !p.localNamed(recv.Type(), "MapPollard") {
+			continue
+		}
+		ord := 0
+		for _, b := range fn.Blocks {
+			for _, in := range b.Instrs {
+				k, m, _ := storeCall(p, in)
+				if k != "index" || (m != "Put" && m != "Delete") {
+					continue
+				}
+				hdr := innermostLoopHeader(b)
+				if hdr == nil {
+					continue
+				}
+				n++
+				ord++
+				key := fmt.Sprintf("%s/index-%s-in-loop#%d", p.FuncName(fn), strings.ToLower(m), ord)
+				bad := ""
+				for _, g := range guardsAt(b) {
+					if len(latches(g.If.Block())) > 0 {
+						continue // the loop's own bound
+					}
+					bo, ok := g.Cond.(*ssa.BinOp)
+					if !ok {
+						continue
+					}
+					for _, op := range []ssa.Value{bo.X, bo.Y} {
+						if phi := inductionVar(op); phi != nil && (phi.Block() == hdr || phi.Block().Dominates(hdr)) && loopContains(phi.Block(), b) {
+							bad = fmt.Sprintf("the update is conditioned on a comparison of the loop counter %s (%s)", phi.Comment, posOf(p, bo))
+						}
+					}
+				}
+				if bad != "" {
+					r.Violate(rule, key, posOf(p, in), bad+": the index follows the node only in some iterations of the loop that moves it", "in "+p.FuncName(fn))
+				} else {
+					r.Discharge(rule, key, posOf(p, in), "no enclosing condition compares the counter of the enclosing loop", true)
+				}
+			}
+		}
+	}
+	r.Floor(rule, "leaf-index updates inside loops of the map forest", n, 4)
 }
